@@ -3,6 +3,7 @@
    followed by Print Assumptions.  Model: Chan/ModelMpsc.v (dfir_rs/src/util/unsync/mpsc.rs). *)
 From Coq Require Import List Arith Bool NArith.
 From HV Require Import Chan.ModelMpsc Chan.ModelMpscChk Chan.PMpscSafe Chan.PMpscLive Chan.PMpscRefute.
+From HV Require Import Chan.ModelMpscFixed Chan.PMpscFixed.
 Import ListNotations.
 
 (* Safety, every executor policy (also spurious polls and cancelled senders), every number of
@@ -96,6 +97,15 @@ Theorem C16_no_rx_strand_refuted :
 Proof. exact no_rx_strand_refuted. Qed.
 Print Assumptions C16_no_rx_strand_refuted.
 
+(* The proposed repair (fixes/C16_wake_all_senders.diff: wake every registered sender on recv),
+   applied to the model: no stranded sender for EVERY executor policy (spurious polls, dropped
+   senders), any number of outstanding sends per task, any capacity, all label sequences.
+   (A statement about the repaired model only; the repair is not applied to /repo.) *)
+Theorem C16_fix_no_strand : forall p c progs tr s,
+  reachable_fixed p (init c progs) tr s -> ~ Stranded s.
+Proof. exact fix_no_strand. Qed.
+Print Assumptions C16_fix_no_strand.
+
 (* ------------------------------------------------------------------ non-vacuity *)
 
 (* the hypotheses of C16_no_strand hold of a run in which two senders really wait for capacity
@@ -129,4 +139,10 @@ Proof. vm_compute. reflexivity. Qed.
 (* the executable form used by the correspondence check flags the witness of finding 1 *)
 Example C16_holds_b_flags_witness :
   C16_fail_mask (Some 1) w1_progs w1_trace (fst (run strict (init (Some 1) w1_progs) w1_trace)) = 16%N.
+Proof. vm_compute. reflexivity. Qed.
+
+(* on the trace of finding 1 the repaired model wakes the parked task 1 at the first recv *)
+Example C16_fix_on_witness1 :
+  option_map (fun s => (stranded_b s, woken (tasks s 1)))
+    (run_enabled_fixed strict (init (Some 1) w1_progs) w1_trace) = Some (false, true).
 Proof. vm_compute. reflexivity. Qed.
